@@ -357,7 +357,9 @@ class JsonSchemaParser:
                 # the Options of a type give way to those of an enclosing data class (whose additionalProperties
                 # would then admit extra items): also state the limit as a constraint of the type itself
                 constraints = dict(constraints or {})
-                constraints['max_length'] = min(len(prefix_items), constraints.get('max_length', len(prefix_items)))
+                if constraints.get('min_length', 0) <= len(prefix_items):
+                    # (with a larger minItems no array validates at all: a Rule refuses contradicting lengths)
+                    constraints['max_length'] = min(len(prefix_items), constraints.get('max_length', len(prefix_items)))
             elif items:
                 addition = self.parse_type(items, with_constraints=True)
 
